@@ -8,3 +8,9 @@ func Notify(c chan<- simos.Signal, sig ...simos.Signal) { simos.NotifyChan(c) }
 
 // Stop unregisters c.
 func Stop(c chan<- simos.Signal) { simos.StopChan(c) }
+
+// CloseQuit stands in for close(quit) in the scratch copy of cmd/gxz (the
+// rewrite tool substitutes it): it closes the channel and waits for the
+// signal-handler goroutine to acknowledge, so that the simulator always knows
+// whether a handler is listening.
+func CloseQuit(quit chan<- struct{}) { simos.CloseQuit(quit) }
